@@ -161,7 +161,9 @@ Definition doc_mean_height_width_product (shape axis : list Z) (is_int16 is_uint
    1 for r < 4 and 2 for r >= 4 (the same convention the code uses to find the width). *)
 Definition width_index (shape : list Z) : Z := if py_len shape <? 4 then 1 else 2.
 Definition doc_mean_width (shape axis : list Z) : bool :=
-  impb (py_in (width_index shape) axis) (py_nth shape (width_index shape) <=? dn doc_nums_constraint_mean_width 0).
+  (* the width axis may be named by its index or by its negative alias (index - rank) *)
+  impb (py_in (width_index shape) axis || py_in (width_index shape - py_len shape) axis)
+       (py_nth shape (width_index shape) <=? dn doc_nums_constraint_mean_width 0).
 (* "If Depth axis is reduced its shape must be no greater than {}." *)
 Definition doc_mean_depth (shape axis : list Z) : bool :=
   impb (py_in (py_len shape - 1) axis) (py_nth shape (-1) <=? dn doc_nums_constraint_mean_depth 0).
